@@ -17,7 +17,6 @@ type c13Opts struct {
 	Body   string `json:"body"`
 	Trim   bool   `json:"trim"`
 	LStrip bool   `json:"lstrip"`
-
 }
 
 func checkC13Opts(c any, r *Rec) error {
